@@ -154,8 +154,9 @@ def conv_float(t):
     if t[0:1] == b'+':
         return (UNSPEC, None)
     low = t.lower().lstrip(b'-')
-    if low.startswith(b'0x') or low.startswith(b'inf') or low.startswith(b'nan'):
-        return (UNSPEC, None)   # hexadecimal floats, inf / nan spellings
+    if low.startswith(b'0x'):
+        return (UNSPEC, None)   # hexadecimal floats: a C spelling the statement does not mention
+    # "inf", "infinity", "nan": spellings the C conversion takes, but not finite-range numerals - they fall to the numeral test below
     if not _FLOAT.match(t):
         return (REJECT, None)
     try:
@@ -493,11 +494,13 @@ class RefParser:
         name_i = self.i
         name = self.toks[self.i].t
         self.i += 1
-        if b'|' in name or b'=' in name or not name:
+        if b'|' in name or b'=' in name:
             # a quoted name that looks like a path: resolved by the path machinery; not part of C01
             raise _Stop(UNSPEC, name_i, 'name looks like a path')
-        o = sec.find(name)
+        o = sec.find(name) if name else None       # the empty name ("" = 1) names nothing
         if o is None:
+            if not name and sec.keystrval and not self.ignore_unknown:
+                raise _Stop(UNSPEC, name_i, 'empty key in a free-form section')
             if self.ignore_unknown:
                 self.skip_unknown(depth)
                 self.unknown_items += 1
@@ -619,7 +622,7 @@ class RefParser:
         d = o.decl
         if 'p' in d.cbs:
             fail = self.tick()
-            self.events.append(('p', d.name, t.t))
+            self.events.append(('p', d.name, t.t, t))                  # last element: the token the scanner has just delivered
             if fail:
                 raise _Stop(REJECT, at, 'parse callback failed')
         v, val = convert(d, t.t)
@@ -645,7 +648,7 @@ class RefParser:
                     last = enc(v)
                 elif d.kind == 'sec':
                     last = enc(v.title)
-            self.events.append(('v', d.name, closing, n, last))
+            self.events.append(('v', d.name, closing, n, last, self.toks[self.i - 1] if self.i else None))
             if fail:
                 raise _Stop(REJECT, self.i, 'validation callback failed')
 
@@ -748,7 +751,7 @@ class RefParser:
             self.includes += 1
             return
         fail = self.tick()
-        self.events.append(('f', d.name, list(args)))
+        self.events.append(('f', d.name, list(args), self.toks[self.i - 1]))
         if fail:
             raise _Stop(REJECT, self.i - 1, 'function callback failed')
 
